@@ -332,8 +332,21 @@ fn leg_programs(ctx: &Ctx, out: &mut Out) {
         enum_dags(n, &alpha, 3, &mut || ctx.mine(), &mut |d| dags.push(d.to_vec()));
         for dag in &dags {
             let Some(p) = Prog::new(dag, fam) else { continue };
-            if !p.commit_unique() {
-                continue;
+            // programs in which a witness- or disconnect-containing sub-expression is used twice (one object,
+            // two paths) are committed programs too: the library names such a sub-expression once per path.
+            // They go through the from-program leg only (the text renderings below name each DAG node once).
+            let unique = p.commit_unique();
+            if !unique {
+                // The library gives each path its own copy. The copies are typed independently when the text is
+                // parsed, and ascriptions in `main` are only *checked* against inferred types (documented in
+                // named_node.rs), so the rendering can only parse if the copies keep their arrows under
+                // principal typing of the expanded DAG; programs where the sharing constrained a type are
+                // outside what the text form can express and are skipped.
+                let mask = p.contains_wd();
+                if !inlining_preserves_types(&p, &mask) {
+                    out.count("from-program:skipped(a shared witness/hole whose sharing constrains its type)", 1);
+                    continue;
+                }
             }
             let want_cmr = ref_cmrs(dag, fam, &mut m)[dag.len() - 1];
             let Ok(commit) = p.to_commit() else { continue };
@@ -375,7 +388,7 @@ fn leg_programs(ctx: &Ctx, out: &mut Out) {
                 }
             }
             // (b) every text rendering of the DAG (quick: programs with <= 4 nodes)
-            if ctx.tier == Tier::Quick && dag.len() > 4 {
+            if !unique || (ctx.tier == Tier::Quick && dag.len() > 4) {
                 continue;
             }
             let leg = "texts";
